@@ -205,6 +205,7 @@ func (m *MACCommand) UnmarshalBinary(uplink bool, data []byte) error {
 	}
 
 	m.CID = CID(data[0])
+	m.Payload = nil
 
 	if len(data) > 1 {
 		p, _, err := GetMACPayloadAndSize(uplink, m.CID)
